@@ -4,6 +4,7 @@ from typing import Any, Dict, List, Optional, Tuple
 
 from func_adl.ast.func_adl_ast_utils import FuncADLNodeTransformer
 from func_adl.object_stream import ObjectStream
+from func_adl.util_ast import copy_ast
 
 
 class _extract_metadata(FuncADLNodeTransformer):
@@ -54,7 +55,9 @@ def extract_metadata(a: ast.AST) -> Tuple[ast.AST, List[Dict[str, str]]]:
         and a list of metadata found.
     """
     e = _extract_metadata()
-    a_new = e.visit(a)
+    # The transformer edits the nodes it visits: give it a copy, `a` may be (part of) the
+    # query of a live stream.
+    a_new = e.visit(copy_ast(a))
     return a_new, e.metadata
 
 
